@@ -109,6 +109,14 @@ pub fn cmd_c17(tier: &str, out: &str) {
         let ev = run_push::<Vec<u8>>(ops, true);
         let key = format!("{}|{:?}", s.len(), ev);
         ks.put(&key, || format!("{{\"T\":{},\"e\":{},\"ops\":{}}}", s.len(), jarr2(&ev), jarr(ops)));
+        // small fixed buffers: an out-of-memory error is a boundary like any other error (no byte is counted twice afterwards)
+        for cap in [1usize, 4, 6, 9] {
+            if cap < s.len() {
+                let ev = run_push_n(cap, ops, true);
+                let key = format!("{}|{}|{:?}", cap, s.len(), ev);
+                ks.put(&key, || format!("{{\"T\":{},\"e\":{},\"ops\":{},\"cap\":{}}}", s.len(), jarr2(&ev), jarr(ops), cap));
+            }
+        }
         if !has_calls(ops) {
             for (src, id) in [(Src::Iter, 7u16), (Src::Io, 8)] {
                 let ev = run_reader_vec(&s, src, 0);
@@ -306,6 +314,38 @@ pub fn cmd_c08(tier: &str, out: &str) {
                     };
                     let key = format!("{}|{:?}|{:?}|{:?}", fe, g, m, ev);
                     ks.put(&key, || format!("{{\"kind\":1,\"fe\":{},\"h\":{},\"g\":{},\"m\":{},\"e\":{}}}", fe, jarr(&hops), jarr(g), jarr(m), jarr2(&ev)));
+                }
+            }
+        }
+    }
+    // histories that end in an out-of-memory error of a fixed buffer (ArrayBuf<8>), at every site that can run out of
+    // memory: an ordinary data byte, the flush of withheld zeros, the fifth zero of a run, a literal escape, the flush at
+    // the end sequence. The decoder must be idle afterwards (the monitor establishes that with the spec's decoder, cap 8).
+    {
+        let st = |v: &[u8]| -> Vec<u32> { START.iter().chain(v.iter()).map(|b| *b as u32).collect() };
+        let mut hs: Vec<Vec<u32>> = vec![
+            st(&[0x55; 9]),
+            st(&[0x55, 0x55, 0x55, 0x55, 0x55, 0x55, 0x55, 0x55, 0x00, 0x99]),
+            st(&[0x55, 0x55, 0x55, 0x55, 0x55, 0x55, 0x55, 0x55, 0, 0, 0, 0, 0]),
+            st(&[0x55, 0x55, 0x55, 0x55, 0x55, 0x55, 0x1b, 0x1b, 0x1b, 0x1b, 0x1b, 0x1b, 0x1b, 0x1b]),
+            st(&[0x55, 0x55, 0x55, 0x55, 0x55, 0x55, 0x55, 0x1b, 0x1b, 0x99]),
+        ];
+        hs.push(frame(&[0x55, 0x55, 0x55, 0x55, 0x55, 0x55, 0x55, 0x55, 0x00]).iter().map(|b| *b as u32).collect());
+        hs.push(frame(&[0x55, 0x55, 0x55, 0x55, 0x55, 0x55, 0x55, 0x00, 0x00, 0x00, 0x00, 0x00]).iter().map(|b| *b as u32).collect());
+        let small: Vec<&Vec<u8>> = noises.iter().filter(|g| g.len() <= 4).collect();
+        for hops in &hs {
+            let hbytes = hops.len() as i64;
+            for g in small.iter().cloned().chain(noises.iter().rev().take(200)) {
+                for m in &frames {
+                    n += 1;
+                    let mut ops = hops.clone();
+                    ops.extend(g.iter().map(|b| *b as u32));
+                    ops.extend(frame(m).iter().map(|b| *b as u32));
+                    let all = run_push_n(8, &ops, true);
+                    let idx = all.iter().position(|e| e[0] > hbytes).unwrap_or(all.len());
+                    let ev = shift(&all, hbytes, idx);
+                    let key = format!("2|{:?}|{:?}|{:?}|{:?}", hops, g, m, ev);
+                    ks.put(&key, || format!("{{\"kind\":1,\"fe\":2,\"cap\":8,\"h\":{},\"g\":{},\"m\":{},\"e\":{}}}", jarr(hops), jarr(g), jarr(m), jarr2(&ev)));
                 }
             }
         }
